@@ -40,10 +40,36 @@ MODELS = {
     "ResNet-pv": {"cls": "ResNet", "act": "relu", "norm": True, "sig": "pv", "depth": 1, "size": 1, "num_conv": 1},
     "UNet": {"cls": "UNet", "act": "gelu", "norm": True, "sig": "sv", "depth": 1, "size": 1, "num_conv": 1},
     "DilResNet": {"cls": "DilResNet", "act": "gelu", "norm": False, "sig": "sv", "depth": 1, "size": 1},
+    # a user-written module around the library layer that calls its public pairwise entry point directly, the way the
+    # test suite does (conv.individual_convolve(x, conv.weights)), followed by a second library layer through __call__
+    "UserModule-individual": {"cls": "user", "sig": "svp"},
 }
+_USER = {}
 
 
-QUICK_MODELS = ["ConvBlock+norm", "ResNet+norm", "ResNet-pv", "UNet"]
+def _user_model(in_sig, out_sig, D, bank_mi):
+    import equinox as eqx
+    import jax.random as random
+    import ginjax.ml as ml
+    from vlib import mlh
+
+    if "cls" not in _USER:
+
+        class TwoLayer(eqx.Module):
+            first: ml.ConvContract
+            second: ml.ConvContract
+
+            def __call__(self, x, aux=None):
+                h = self.first.individual_convolve(x, self.first.weights)
+                return self.second(h), aux
+
+        _USER["cls"] = TwoLayer
+    ins, outs = mlh.sig_tuple(in_sig), mlh.sig_tuple(out_sig)
+    k1, k2 = random.split(random.PRNGKey(5))
+    return _USER["cls"](ml.ConvContract(ins, ins, bank_mi, use_bias=False, key=k1), ml.ConvContract(ins, outs, bank_mi, use_bias="auto", key=k2))
+
+
+QUICK_MODELS = ["ConvBlock+norm", "ResNet+norm", "ResNet-pv", "UNet", "UserModule-individual"]
 
 
 def bounds(tier):
@@ -86,7 +112,12 @@ def run_case(case, seed):
     flags = (True, True)
     ckey = repr(sorted(case.items()))
     rng = rng_for(seed, "C09", ckey)
-    model, in_sig, out_sig, grp = MD.build(spec)
+    if spec["cls"] == "user":
+        in_sig, out_sig = MD.SIGS2[spec["sig"]]
+        bank_mi, _, grp = mlh.bank(D, "B_M3_normalize")
+        model = _user_model(in_sig, out_sig, D, bank_mi)
+    else:
+        model, in_sig, out_sig, grp = MD.build(spec)
     model = mlh.perturb_model(model, rng, 0.1)
     in_order = [tuple(kp) for kp, _ in in_sig]
     out_order = [tuple(kp) for kp, _ in out_sig]
